@@ -101,6 +101,7 @@ def unit_edits(unit):
                 yield "W3 override on type without underlying type", edited(path, lambda par_, i, n: n.attrs.__setitem__("type", t + ":char"))
             if t in ("string", "encoded_string"):
                 yield "W6 length names an undeclared field", edited(path, lambda par_, i, n: n.attrs.__setitem__("length", "nope"))
+                yield "W6 length names an ordinary (non-length) field", edited(path, lambda par_, i, n: (par_.kids.insert(i, field("zq1", "char")), n.attrs.__setitem__("length", "zq1")))
                 yield "W6 length in another digit script", edited(path, lambda par_, i, n: n.attrs.__setitem__("length", "\u0663"))
                 if node.get("length") is None:
                     yield "W14 fixed literal of wrong length", edited(path, lambda par_, i, n: (setattr(n, "text", "hi"), n.attrs.__setitem__("length", "3"), n.attrs.pop("optional", None)))
@@ -122,6 +123,7 @@ def unit_edits(unit):
                     yield f"W9 non-delimited array of unbounded {el}", edited(path, lambda par_, i, n, el=el: n.attrs.__setitem__("type", el))
                 yield "W9 delimited outside chunked (if outside)", edited(path, lambda par_, i, n: n.attrs.__setitem__("delimited", "true"))
             yield "W6 array length names an undeclared field", edited(path, lambda par_, i, n: n.attrs.__setitem__("length", "nope"))
+            yield "W6 array length names an ordinary (non-length) field", edited(path, lambda par_, i, n: (par_.kids.insert(i, field("zq2", "short")), n.attrs.__setitem__("length", "zq2")))
             yield "W6 array length in another digit script", edited(path, lambda par_, i, n: n.attrs.__setitem__("length", "\u00b2"))
         if tag == "length":
             yield "W8 length without name", edited(path, lambda par_, i, n: n.attrs.pop("name"))
